@@ -15,7 +15,8 @@ beyond the old ones are new and satisfy `LPC` (given A1). -/
 def SK (s s' : SeqState) : Prop :=
   SG s s' ∧
   (∀ (i : Nat) (c : ChanState), s.chans[i]? = some c → ∃ c', s'.chans[i]? = some c' ∧ KG c c') ∧
-  (∀ (i : Nat) (c' : ChanState), s.chans.length ≤ i → s'.chans[i]? = some c' → FallsOkC c' → LPCc c')
+  (∀ (i : Nat) (c' : ChanState), s.chans.length ≤ i → s'.chans[i]? = some c' →
+    (FallsOkC c' → LPCc c') ∧ RTc c')
 
 theorem SK.rfl' {s : SeqState} (h : SeqInv s) : SK s s :=
   ⟨SG.rfl' h, fun _ c hc => ⟨c, hc, KG.rfl' c⟩, fun i c' hi hc => by
@@ -27,13 +28,14 @@ theorem SK.trans {a b c : SeqState} (h1 : SK a b) (h2 : SK b c) : SK a c := by
     obtain ⟨y, hy, k1⟩ := h1.2.1 i x hx
     obtain ⟨z, hz, k2⟩ := h2.2.1 i y hy
     exact ⟨z, hz, k1.trans k2⟩
-  · intro i z hi hz hf
+  · intro i z hi hz
     by_cases hlt : i < b.chans.length
     · have hy : b.chans[i]? = some b.chans[i] := List.getElem?_eq_getElem hlt
       obtain ⟨z', hz', k⟩ := h2.2.1 i _ hy
       rw [hz] at hz'; injection hz' with hz'; subst hz'
-      exact k.2 hf (h1.2.2 i _ hi hy (FallsOkC_of_Ext k.1 hf))
-    · exact h2.2.2 i z (by omega) hz hf
+      have h0 := h1.2.2 i _ hi hy
+      exact ⟨fun hf => k.2.1 hf (h0.1 (FallsOkC_of_Ext k.1 hf)), k.2.2 h0.2⟩
+    · exact h2.2.2 i z (by omega) hz
 
 theorem SK_of_chans_eq {s s' : SeqState} (h : SeqInv s) (h1 : s'.chans = s.chans)
     (h2 : s'.dev = s.dev) (h3 : s'.nQ = s.nQ) : SK s s' :=
@@ -50,8 +52,20 @@ theorem SK.keeps {s s' : SeqState} (h : SK s s') (hf : FallsOk s') (hl : LPCAll 
   by_cases hlt : i < s.chans.length
   · obtain ⟨z, hz, k⟩ := h.2.1 i _ (List.getElem?_eq_getElem hlt)
     rw [hget] at hz; injection hz with hz; rw [hz]
-    exact k.2 (by rw [← hz]; exact hf _ hc') (hl _ (List.getElem_mem hlt))
-  · exact h.2.2 i _ (by omega) hget (hf _ hc')
+    exact k.2.1 (by rw [← hz]; exact hf _ hc') (hl _ (List.getElem_mem hlt))
+  · exact (h.2.2 i _ (by omega) hget).1 (hf _ hc')
+
+def RTAll (s : SeqState) : Prop := ∀ c ∈ s.chans, RTc c
+
+theorem SK.keepsRT {s s' : SeqState} (h : SK s s') (hl : RTAll s) : RTAll s' := by
+  intro c' hc'
+  obtain ⟨i, hi, rfl⟩ := List.mem_iff_getElem.mp hc'
+  have hget : s'.chans[i]? = some s'.chans[i] := List.getElem?_eq_getElem hi
+  by_cases hlt : i < s.chans.length
+  · obtain ⟨z, hz, k⟩ := h.2.1 i _ (List.getElem?_eq_getElem hlt)
+    rw [hget] at hz; injection hz with hz; rw [hz]
+    exact k.2.2 (hl _ (List.getElem_mem hlt))
+  · exact (h.2.2 i _ (by omega) hget).2
 
 theorem replaceChan_length (c' : ChanState) (l : List ChanState) :
     (SeqState.replaceChan c' l).length = l.length := by
@@ -274,7 +288,7 @@ theorem RK_addCore {s : SeqState} (hi : SeqInv s) (p : PulseIn) (n : ChName)
 
 /-- Appending a fresh channel. -/
 theorem SK_append {s s' : SeqState} {c : ChanState} (hi : SeqInv s) (hc : ChanInv s.dev.maxSeqDur c)
-    (hl : LPCc c) (h1 : s'.chans = s.chans ++ [c]) (h2 : s'.dev = s.dev) (h3 : s'.nQ = s.nQ) :
+    (hl : LPCc c ∧ RTc c) (h1 : s'.chans = s.chans ++ [c]) (h2 : s'.dev = s.dev) (h3 : s'.nQ = s.nQ) :
     SK s s' := by
   refine ⟨SG_append hi hc h1 h2 h3, ?_, ?_⟩
   · intro i x hx
@@ -282,23 +296,29 @@ theorem SK_append {s s' : SeqState} {c : ChanState} (hi : SeqInv s) (hc : ChanIn
     rw [h1, List.getElem?_append_left]
     · exact hx
     · exact (List.getElem?_eq_some_iff.mp hx).1
-  · intro i c' hi' hc' _
+  · intro i c' hi' hc'
     rw [h1] at hc'
     have hlen := (List.getElem?_eq_some_iff.mp hc').1
     simp at hlen
     have : i = s.chans.length := by omega
     subst this
-    simp at hc'; subst hc'; exact hl
+    simp at hc'; subst hc'; exact ⟨fun _ => hl.1, hl.2⟩
 
 theorem freshChan_lpc {name : ChName} {chId : Nat} {cfg : ChanCfg} {qs : List Nat} {w : Bool}
-    {a b : Rat} : LPCc (SeqState.freshChan name chId cfg qs w a b) := by
-  show LPC (if w = true then _ else _ : List Slot).reverse
-  split
-  · exact ⟨fun _ q pq h => by simp [firstPulse] at h, trivial⟩
-  · trivial
+    {a b : Rat} : LPCc (SeqState.freshChan name chId cfg qs w a b) ∧
+      RTc (SeqState.freshChan name chId cfg qs w a b) := by
+  constructor
+  · show LPC (if w = true then _ else _ : List Slot).reverse
+    split
+    · exact ⟨fun _ q pq h => by simp [firstPulse] at h, trivial⟩
+    · trivial
+  · show RT cfg (if w = true then _ else _ : List Slot).reverse
+    split
+    · exact ⟨fun h => absurd rfl h, trivial⟩
+    · trivial
 
 theorem addChannel_SK {s : SeqState} {c : ChanState} (hi : SeqInv s) (hc : ChanInv s.dev.maxSeqDur c)
-    (hl : LPCc c) : SK s (s.addChannel c) := by
+    (hl : LPCc c ∧ RTc c) : SK s (s.addChannel c) := by
   unfold SeqState.addChannel
   simp only
   split
@@ -455,7 +475,7 @@ theorem injectOracle_SK {s : SeqState} (hi : SeqInv s) (n : ChName) (d : Rat) (d
     simp only [SeqState.injectOracle, List.getElem?_map, hc, Option.map_some]
     by_cases h : (c.name == n) = true
     · rw [if_pos h]
-      exact ⟨_, rfl, ⟨rfl, rfl, List.prefix_refl _, rfl, rfl⟩, fun _ hl => hl⟩
+      exact ⟨_, rfl, ⟨rfl, rfl, List.prefix_refl _, rfl, rfl⟩, fun _ hl => hl, fun h => h⟩
     · rw [if_neg h]; exact ⟨_, rfl, KG.rfl' c⟩
   · intro i c' hi' hc'
     have := (List.getElem?_eq_some_iff.mp hc').1
@@ -485,6 +505,15 @@ theorem runEv_LPC {s : SeqState} (hd : DevOk s.dev) (hi : SeqInv s) (hl : LPCAll
     have hsg : SG (stepEv s ev) (runEv (stepEv s ev) rest) := runEv_SG hd1 h1.1.1 rest
     have hf1 : FallsOk (stepEv s ev) := FallsOk_of_SG hsg hf
     exact ih hd1 h1.1.1 (h1.keeps hf1 hl) hf
+
+/-- The retarget rule along whole histories. -/
+theorem runEv_RT {s : SeqState} (hd : DevOk s.dev) (hi : SeqInv s) (hl : RTAll s) (evs : List Ev) :
+    RTAll (runEv s evs) := by
+  induction evs generalizing s with
+  | nil => exact hl
+  | cons ev rest ih =>
+    have h1 := stepEv_SK hd hi ev
+    exact ih (by rw [h1.1.2.1]; exact hd) h1.1.1 (h1.keepsRT hl)
 
 /-- `recentShared` under 'wait-for-all' is the most recent pulse. -/
 theorem recentShared_all (myT : List Nat) (l : List Slot) : recentShared myT true l = firstPulse l := by
